@@ -105,7 +105,9 @@ Lemma all_ii_sensor : forallb ii_sensor ireach = true. Proof. vm_compute. reflex
 Lemma all_ii_fuel : forallb ii_fuel ireach = true. Proof. vm_compute. reflexivity. Qed.
 Lemma all_ii_alive : forallb ii_alive ireach = true. Proof. vm_compute. reflexivity. Qed.
 Lemma all_ii_phase_closed : forallb ii_phase_closed ireach = true. Proof. vm_compute. reflexivity. Qed.
-Lemma ireach_size : Nat.ltb 5000 (List.length ireach) = true. Proof. vm_compute. reflexivity. Qed.
+Definition ii_reset_clean (s : ist) : bool := negb (v_reset_dirty s).
+Lemma all_ii_reset_clean : forallb ii_reset_clean ireach = true. Proof. vm_compute. reflexivity. Qed.
+Lemma ireach_size : Nat.ltb 2000 (List.length ireach) = true. Proof. vm_compute. reflexivity. Qed.
 
 (* ---------- the big-step LTS is one of the schedules ---------- *)
 Definition embed (s : mst) : ist := mkI (norm s) (PBlocked (ppc s)) TNone TNone false false false.
@@ -139,10 +141,11 @@ Lemma big_step_refines : forallb (fun s => forallb (refines_at s) (Ext SPA_MAN_E
 Proof. vm_compute. reflexivity. Qed.
 Global Opaque istep.
 
-(* ---------- 'a reset always lands in IDLE with no facade, spa or descriptors' is false under interleaving (K10) ---------- *)
+(* ---------- the schedule of finding K10 (repaired in /repo: async_reset clears the descriptors again when it finishes) ---------- *)
 (* the pump's own reset (after a handshake step raised) and a user reset are both suspended in the client's handler for
-   RUNNING_SPA_DISCONNECTED; the pump is resumed first, finishes, discovers again; the user's reset then returns: state IDLE with
-   the new descriptors in place, which no branch of the pump's loop leaves *)
+   RUNNING_SPA_DISCONNECTED; the pump is resumed first, finishes, discovers again; the user's reset then returns.  Before the
+   repair it returned with the new descriptors in place - state IDLE, descriptors present, which no branch of the pump leaves;
+   now it returns clean and the pump starts again *)
 Definition w_k10 : list ilabel :=
   [LBig Pump; LResume SP; LBig (LocOutcome false false); LResume SP; LBig Pump; LResume SP; LBig (LocOutcome true false);
    LResume SP; LResume SP; LResume SP; LBig (ConnOutcome CRaise); LResume SP; LBig UserReset; LResume SP; LBig Pump; LResume SP;
@@ -153,6 +156,8 @@ Definition stuck_idle (s : ist) : bool :=
       match istepS s (LBig Pump) with Some s' => ist_eqb s s' | None => false end
   | _, _, _ => false end.
 Local Transparent istep.
-Lemma k10_witness : option_map (fun s => (v_reset_dirty s, stuck_idle s)) (irun (ientered true) w_k10) = Some (true, true).
+Lemma k10_schedule_now_clean : option_map (fun s => (v_reset_dirty s, stuck_idle s, desc (gs s))) (irun (ientered true) w_k10) = Some (false, false, false).
+Proof. vm_compute. reflexivity. Qed.
+Lemma no_stuck_idle : forallb (fun s => negb (stuck_idle s)) ireach = true.
 Proof. vm_compute. reflexivity. Qed.
 Global Opaque istep.
